@@ -11,6 +11,7 @@ for i in $IDS; do
   e=$(date +%s.%N)
   printf "%s exit=%d %.1fs  %s\n" $i $code $(echo "$e - $s" | bc) "$(echo "$out" | tail -1 | cut -c1-170)"
   [ $code -ne 0 ] && { rc=1; echo "$out" | head -20; }
+  if [ "$TIER" = thorough ] && [ $code -eq 0 ]; then mkdir -p evidence-thorough; cp evidence/$i.json evidence-thorough/$i.json; fi
 done
 python3-vt - <<'PY'
 import json, jsonschema, glob
